@@ -100,6 +100,17 @@ class Session:
     return ProbeResult(sel, n)
 
   def make_probe(self, op):
+    if op.get('innerSig'):
+      # an ordinary functools.wraps decorator around a function with signature `innerSig`: the callable gin
+      # registers has the signature (*args, **kw) and a __wrapped__ attribute; what it is called with is recorded
+      import functools
+      inner = self.make_probe({k: v for k, v in dict(op, sig=op['innerSig']).items() if k != 'innerSig'})
+      oid, sel, rec = op['obj'], op.get('_selector'), self._rec
+
+      @functools.wraps(inner)
+      def wrapper(*args, **kw):
+        return rec(oid, sel, [], args, kw)
+      return wrapper
     sig, kind = op['sig'], op.get('_kind', 'fn')
     leaf = op.get('_pyname') or op['name'].split('.')[-1]
     oid = op['obj']
@@ -140,9 +151,15 @@ class Session:
     if kind == 'fn':
       src = f'def {leaf}({plist}):\n  """doc of {leaf}"""\n  return {rec}\n'
     elif kind == 'init':
-      src = (f'class {leaf}:\n  """doc of {leaf}"""\n  def __init__({plist}):\n    {rec}\n')
+      base, bsrc = '', ''
+      if op.get('_mixin'):   # the other constructor, taking anything, defined further up the MRO: the nearest one counts
+        base, bsrc = f'({leaf}Mixin)', f'class {leaf}Mixin:\n  def __new__(cls, *a, **k):\n    return object.__new__(cls)\n'
+      src = (bsrc + f'class {leaf}{base}:\n  """doc of {leaf}"""\n  def __init__({plist}):\n    {rec}\n')
     elif kind == 'new':
-      src = (f'class {leaf}:\n  """doc of {leaf}"""\n  def __new__({plist}):\n    {rec}\n'
+      base, bsrc = '', ''
+      if op.get('_mixin'):
+        base, bsrc = f'({leaf}Mixin)', f'class {leaf}Mixin:\n  def __init__(self, *a, **k):\n    pass\n'
+      src = (bsrc + f'class {leaf}{base}:\n  """doc of {leaf}"""\n  def __new__({plist}):\n    {rec}\n'
              f'    return object.__new__({pos[0][0]})\n')
     else:
       raise AssertionError(kind)
@@ -448,7 +465,12 @@ class Session:
           g[f'_d_{m["name"]}_{n}'] = decode(d['v'], gin)
       names = [n for n, _ in m['sig']['pos'][1:]]
       rec = '_rec(%d, %r, [%s], (), {})' % (m['obj'], m['_selector'], ', '.join(f'({n!r}, {n})' for n in names))
-      msrc += f'  @gin.register\n  def {m["name"]}({params}):\n    return {rec}\n'
+      lists = ''
+      if m.get('allow'):
+        lists = f'(allowlist={list(m["allow"])!r})'
+      elif m.get('deny'):
+        lists = f'(denylist={list(m["deny"])!r})'
+      msrc += f'  @gin.register{lists}\n  def {m["name"]}({params}):\n    return {rec}\n'
     if op.get('_inherited'):
       # the registered method lives in an unregistered base class (mixin)
       src = (f'class {leaf}Base:\n  """base"""\n{msrc}\n'
